@@ -20,6 +20,8 @@ def cases(tier, seed, prop):
         s = gens.rand_abbr(rnd, [rnd.randint(1, 8)], 3)
         for _ in range(rnd.randint(0, 2)): s = gens.mutate(rnd, s, gens.ABBR_ALPHA + gens.NONASCII)
         out.append({'s': s, 'g': 'abbr'})
+    for zw in ('a\u200bb', '\ufeffdiv', 'ul>li\u200b*2', 'p{x\u200by}', 'a[t=\ufeff]'):
+        out.append({'s': zw, 'g': 'zero-width'})
     for depth in (2000, 30000):
         out.append({'s': 'a{${1:' + '{' * depth + 'x' + '}' * depth + '}}', 'g': 'deep-braces', 'deep': 1})
         out.append({'s': 'a[b=${1:' + '{' * depth + '}' * depth + '}]', 'g': 'deep-braces', 'deep': 1})
